@@ -1020,6 +1020,31 @@ func checkC14(c *CheckCtx) error {
 			}
 		}
 	}
+	// documents with <, > and &: the Go-value form goes through the STANDARD encoding (which writes
+	// \u003c, \u003e, \u0026); the string / []byte forms here are that same standard text, so all three
+	// forms are one document in one spelling and must store the same text
+	for i, doc := range []string{`{"html":"<b>bold</b>"}`, `{"href":"https://example.org/?a=1&b=2","title":"x"}`, `["1 < 2",{"q":"R&D"}]`, `{"a<b":1,"list":["&",">"]}`} {
+		std, ok := goJSONText(strVal(doc))
+		if !ok {
+			return fmt.Errorf("corpus document invalid: %q", doc)
+		}
+		forms := []*Val{strVal(std), bytesVal(std), {K: "gojson", B64: base64.StdEncoding.EncodeToString([]byte(doc))}}
+		for _, api := range []string{"json", "sjson"} {
+			for first := range forms {
+				n++
+				sc := &Scenario{ID: fmt.Sprintf("jh%d", n), Configs: stdConfigs(), Program: []string{"TestA"}}
+				sc.Procs = append(sc.Procs, &Proc{Spec: procSpec("default"), Steps: []*Step{{Op: "begin", Name: "TestA"}, {Op: "match", Name: "TestA", API: api, Cfg: "c", Val: forms[first]}, {Op: "end", Name: "TestA"}}})
+				var rep []*Step
+				for _, f := range forms {
+					rep = append(rep, &Step{Op: "begin", Name: "TestA"}, &Step{Op: "match", Name: "TestA", API: api, Cfg: "c", Val: f}, &Step{Op: "end", Name: "TestA"})
+				}
+				sc.Procs = append(sc.Procs, &Proc{Spec: procSpec("ci"), Steps: rep})
+				sc.Note = fmt.Sprintf("document %d with HTML-sensitive characters in its standard encoding via %s, stored from form %d, three forms replayed", i, api, first)
+				scs = append(scs, sc)
+				c.nontrivial(sc.Note)
+			}
+		}
+	}
 	// invalid input: must fail, write nothing, keep later slots
 	for i, bad := range invalidJSON {
 		for _, api := range []string{"json", "sjson"} {
